@@ -84,3 +84,25 @@ Proof. unfold hyp_filterb. intros H WN.
   - apply all_mineb_sound. assumption.
   - eapply forallb_Forall; [exact (wf_itemb_sound pid)|assumption].
   - apply bytes_eqb_sound. assumption. Qed.
+
+Theorem hyp_interruptedb_sound ca cb pid la lb tail : hyp_interruptedb ca cb pid la lb = true ->
+  read_pmt (packetise pid la ++ packetise pid lb ++ tail) pid = Ok (sec_result (sec cb)).
+Proof. unfold hyp_interruptedb. intros H.
+  apply andb_true_iff in H. destruct H as [H B5]. apply andb_true_iff in H. destruct H as [H B4].
+  apply andb_true_iff in H. destruct H as [H B3]. apply andb_true_iff in H. destruct H as [H B2].
+  apply andb_true_iff in H. destruct H as [H B1].
+  unfold hyp_readb in B1.
+  apply andb_true_iff in B1. destruct B1 as [B1 C4]. apply andb_true_iff in B1. destruct B1 as [B1 C3].
+  apply andb_true_iff in B1. destruct B1 as [B1 C2]. apply andb_true_iff in B1. destruct B1 as [B1 C1].
+  apply (read_pmt_after_interrupted ca cb).
+  - apply wf_carrierb_sound. exact H.
+  - apply wf_carrierb_sound. exact B1.
+  - destruct (sstreams (sec cb)); [discriminate|discriminate].
+  - eapply forallb_Forall; [exact (wf_itemb_sound pid)|exact B2].
+  - eapply forallb_Forall; [exact (wf_itemb_sound pid)|exact C2].
+  - apply bytes_eqb_sound in B4. exists (dropN (len (concat (chunks la))) (ser_unit ca)), 0.
+    rewrite B4 at 1. change (repeatN 255 0) with (@nil N). rewrite app_nil_r. unfold takeN, dropN. apply firstn_skipn.
+  - apply N.ltb_lt. exact B3.
+  - apply cuts_okb_sound. exact B5.
+  - exists (stuffing cb). apply bytes_eqb_sound. exact C3.
+  - apply cuts_okb_sound. exact C4. Qed.
